@@ -16,6 +16,9 @@ GENS = {
     'remove': benchgen.gen_remove,
     'fill_to': benchgen.gen_fill_to,
     'slice': benchgen.gen_slice,
+    'create_solution': benchgen.gen_create_solution,
+    'dilute': benchgen.gen_dilute,
+    'create_solution_from': benchgen.gen_create_solution_from,
 }
 
 
@@ -107,8 +110,13 @@ def replay_history(col, pp, case, monitor):
     world = bench.World(pp, subs_json=case['subs'])
     monitor.start(world)
     for op in case['ops']:
-        pre = monitor.before(world, op)
-        out = bench.execute(world, op)
+        try:
+            pre = monitor.before(world, op)
+            out = bench.execute(world, op)
+        except IndexError:
+            # an earlier op no longer returns what it returned when the case was recorded (e.g. it is refused
+            # now), so later pool references do not exist: the recorded history does not apply any further
+            break
         monitor.after(world, op, pre, out)
     monitor.finish(world)
     return world
